@@ -167,6 +167,15 @@ def build_dictionary(mdefs):
     return built
 
 
+def reregister(built):
+    """make this dictionary's classes the ones `Message.Def` resolves to again (a later dictionary — e.g. one built by a
+    shrinker — may have registered the same MsgType)"""
+    fix = fixmod()
+    for cls in built.msg_cls.values():
+        fix.Message.Def[cls.Name] = cls
+        fix.Message.Def[cls.Type] = cls
+
+
 def fresh_name(prefix='M'):
     return f'{prefix}{next(_uid)}x'
 
@@ -454,3 +463,60 @@ def count_groups(seg):
 
 def depth_of(entries):
     return max([0] + [1 + depth_of(e[3]) for e in entries if e[0] == 'g'])
+
+
+# ------------------------------------------------------------------ fresh processes per batch
+# Every generated dictionary adds classes to the library's process-global registries, and `issubclass(x, Field)` on an ABC
+# walks all existing subclasses (filling their negative caches): cost and memory grow quadratically with the number of
+# classes in one process.  Batches therefore run in short-lived forked workers, each with its own seeded generator.
+def _chunk_worker(args):
+    import importlib
+    import random
+    import common
+    prop, tier, seed, modname, chunk_id, payload = args
+    ctx = common.Ctx(prop, tier, seed)
+    ctx.rng = random.Random(f'{prop}-{seed}-chunk{chunk_id}')
+    mod = importlib.import_module(modname)
+    ctx.driver = common.Driver(getattr(mod, 'DRIVER', f'drv_{prop}'))
+    try:
+        mod.run_chunk(ctx, payload)
+        err = None
+    except Exception:  # noqa
+        import traceback
+        err = traceback.format_exc()[-3000:]
+    return {'chunk': chunk_id, 'violations': ctx.violations, 'known_hits': ctx.known_hits, 'disagreements': ctx.disagreements,
+            'evaluations': ctx.cov['evaluations'], 'histogram': ctx.cov['histogram'], 'samples': ctx.cov['samples'],
+            'distinct': list(ctx._distinct), 'notes': ctx.notes, 'error': err}
+
+
+def run_chunks(ctx, modname, payloads, processes=8):
+    """run `modname.run_chunk(worker_ctx, payload)` for every payload in fresh forked processes and merge into `ctx`"""
+    import multiprocessing as mp
+    if not payloads:
+        return
+    args = [(ctx.prop, ctx.tier, ctx.seed, modname, i, p) for i, p in enumerate(payloads)]
+    with mp.get_context('fork').Pool(processes=min(processes, len(args)), maxtasksperchild=1) as pool:
+        results = pool.map(_chunk_worker, args, chunksize=1)
+    for r in sorted(results, key=lambda x: x['chunk']):
+        if r['error']:
+            raise RuntimeError('worker failed:\n' + r['error'])
+        for v in r['violations']:
+            if len(ctx.violations) < 20:
+                ctx.violations.append(tuple(v))
+        for k in r['known_hits']:
+            if k[0] not in [x[0] for x in ctx.known_hits]:
+                ctx.known_hits.append(tuple(k))
+        for dgr in r['disagreements']:
+            if len(ctx.disagreements) < 20:
+                ctx.disagreements.append(tuple(dgr))
+        ctx.cov['evaluations'] += r['evaluations']
+        for k, n in r['histogram'].items():
+            ctx.count(k, n)
+        for smp in r['samples']:
+            if len(ctx.cov['samples']) < 6:
+                ctx.cov['samples'].append(smp)
+        ctx._distinct.update(r['distinct'])
+        for n in r['notes']:
+            if n not in ctx.notes:
+                ctx.notes.append(n)
+    ctx.cov['distinct_nontrivial'] = len(ctx._distinct)
